@@ -93,7 +93,7 @@ func valKind(v Val) string {
 }
 
 func checkC10(c *Ctx) {
-	c.rule = "API driver: every receiver of a 51-value pool (all value types incl. objects, types, library functions, exception, Go value) x every member name extracted from the working tree (+unknown names) x {get, set, call, new, fn, str, dup, twin (continue on the copy), cmp, json} x argument tuples (arity 0..1 exhaustive over a 32-value boundary pool, arity 2 exhaustive in thorough, arity 2..4 random; for list / dictionary / text receivers additionally every position and position pair in [-2, length+2]), applied as step sequences on one receiver; plus scripted histories that copy a list / dictionary of 0..9 elements and alternate insertions and removals between the value and its copy, displaying both. Program driver: one- and two-statement Zn programs applying every operator / index / member / call / new / throw / loop form to input variables drawn from the same pools; plus user methods / type methods whose body ends in each of 25 failures (with no handler, a handler without and with 输出) whose call is placed in each of 26 consumer positions. Whole-program driver: programs made of definitions / comments / imports only and programs yielding each kind of value, through Execute and through the playground HTTP handler. Input-variable driver: texts without any statement (line breaks, comments, imports only), every right-hand-side kind, failing and ill-formed texts through ExecVarInputText. Violation = recovered Go panic, nil element without error, worker exit, or hang. distinct_nontrivial = distinct (receiver kind, step kind, member, arg kinds, outcome kind)"
+	c.rule = "API driver: every receiver of a 51-value pool (all value types incl. objects, types, library functions, exception, Go value) x every member name extracted from the working tree (+unknown names) x {get, set, call, new, fn, str, dup, twin (continue on the copy), cmp, json} x argument tuples (arity 0..1 exhaustive over a 32-value boundary pool, arity 2 exhaustive in thorough, arity 2..4 random; for list / dictionary / text receivers additionally every position and position pair in [-2, length+2]), applied as step sequences on one receiver; plus scripted histories that copy a list / dictionary of 0..9 elements and alternate insertions and removals between the value and its copy, displaying both. Program driver: one- and two-statement Zn programs applying every operator / index / member / call / new / throw / loop form to input variables drawn from the same pools; plus user methods / type methods whose body ends in each of 25 failures (with no handler, a handler without and with 输出) whose call is placed in each of 26 consumer positions. Whole-program driver: programs made of definitions / comments / imports only and programs yielding each kind of value, through Execute and through the playground HTTP handler; runaway recursion (plain, mutual, through a type method, through a constructor) without a logical budget. Input-variable driver: texts without any statement (line breaks, comments, imports only), every right-hand-side kind, failing and ill-formed texts through ExecVarInputText. Violation = recovered Go panic, nil element without error, worker exit, or hang. distinct_nontrivial = distinct (receiver kind, step kind, member, arg kinds, outcome kind)"
 	c.assumptions = []string{"library functions run inside the worker's private scratch directory", "member tables are read from /repo sources at check time by a string-literal scan"}
 	rng := c.Rand("c10")
 	members := memberNames()
@@ -459,6 +459,23 @@ func checkC10(c *Ctx) {
 		r1.Libs = true
 		r1.EvalBudget = 20000
 		wreqs = append(wreqs, r1, Req{Op: "pg", Src: Runes(w), EvalBudget: 20000}, Req{Op: "pg", Src: Runes(w), Text: "甲 = 1", EvalBudget: 20000})
+	}
+	// runaway recursion (no logical budget here: the interpreter itself has to stop it with an
+	// error before the Go stack is exhausted, which would end the whole process)
+	for wi, w := range []string{
+		"如何深？\n\t输入层\n\t输出 1 +（深：层 + 1）\n输出（深：1）\n",
+		"如何甲？\n\t输出（乙）\n如何乙？\n\t输出（甲）\n输出（甲）\n",
+		"定义环：\n\t其数 = 0\n\t如何转？\n\t\t输出 以其（转）\n输出 以（新建环）（转）\n",
+		"定义环：\n\t其数 = 0\n如何新建环？\n\t其数 =（新建环）\n输出（新建环）\n",
+		"如何深？\n\t输入层\n\t输出 1 +（深：层 + 1）\n\n\t拦截异常：\n\t\t输出 -1\n输出（深：1）\n",
+	} {
+		if c.Quick() && wi != 1 && wi != 2 {
+			continue // (each takes seconds: every other one in the quick tier)
+		}
+		r1 := execReq(w)
+		r1.EvalBudget = 0
+		wreqs = append(wreqs, r1)
+		whole = append(whole, w)
 	}
 	c.runBatches(wreqs, 10, func(i int, req *Req, resp *Resp) {
 		c.Eval()
